@@ -651,6 +651,9 @@ class Ctx:
             v = self.fresh("m")
             binds.append((v, f"(Py.enumCheck {fname}_values {x})"))
             return [v], "int"
+        if fname == "np.dtype" and len(args) == 1 and ast.unparse(args[0]) in ("np.uint8", "np.uint16", "np.uint32", "np.uint64"):
+            # an unsigned NumPy port dtype is represented by its width in bits
+            return [lit(int(ast.unparse(args[0])[7:]))], "int"
         if fname == "abs":
             x = self._int(args[0], binds)
             return [f"(Py.abs {x})"], "int"
